@@ -17,6 +17,45 @@ def make(ff, md, name, nu2, z, cosmo, m=None, neff=None, delta=200.0, **params):
     return getattr(ff, name)(nu2=nu2, m=m, z=z, n_eff=neff, mass_definition=md.SOMean(overdensity=delta), cosmo=cosmo, delta_c=1.686, **params)
 
 
+def hypotheses_of_sign_theorems():
+    """the sign hypotheses of the `<Fit>_nonneg` theorems, read from Props/C07.lean: {fit: [(relation, variable)]}"""
+    import re
+    src = open(os.path.join(LEAN_DIR, "HmfVerif", "Props", "C07.lean")).read()
+    out = {}
+    for m in re.finditer(r"theorem (\w+)_nonneg\b(.*?):=\s*by", src, re.S):
+        hyps = re.findall(r"\(\w+ : 0 (<|≤) ρ \"([^\"]+)\"\)", m.group(2))
+        out[m.group(1)] = hyps
+    return out
+
+
+def check_hypotheses_nonvacuous(ff, md, sp, J, tup, viol_broken):
+    """non-vacuity: the default coefficients of every fit satisfy the hypotheses its sign theorem assumes, at several redshifts and
+    overdensities (evaluated on the real instances with the same variable vocabulary as the generated terms)"""
+    import c06
+    from astropy.cosmology import Planck15
+    hyp = hypotheses_of_sign_theorems()
+    r = rng("c07-hyp")
+    n = 0
+    for name, hs in sorted(hyp.items()):
+        if name not in J["fits"] or not hs:
+            continue
+        for z in (0.0, 1.0, 4.0):
+            for delta in (200, 300.0, 800):
+                try:
+                    obj, env, calls, desc, env_for = c06.build_case(r, name, J["fits"][name], tup, ff, md, sp, Planck15, n=3, override=False, delta=delta, z=z)
+                except Exception:
+                    continue
+                for rel, var in hs:
+                    val = env_for(("var", var)).get(var)
+                    val = float(np.min(val)) if val is not None and np.ndim(val) else val
+                    if val is None or (isinstance(val, float) and np.isnan(val)):
+                        continue
+                    n += 1
+                    if not (val > 0 if rel == "<" else val >= 0):
+                        viol_broken(f"hypothesis `0 {rel} {var}` of theorem {name}_nonneg is not met by the default coefficients at z={z}, overdensity {delta}: value {val}")
+    return n
+
+
 def run(ctx):
     quick = ctx["tier"] == "quick"
     realfuzz.init()
@@ -124,7 +163,17 @@ def run(ctx):
             tol = 2e-3 if name != "Peacock" else 2e-2
             if abs(val - 1) > tol:
                 viol(f"{name}/collapsed-fraction", f"{name}{params or ''} z={z}: integral of f dln(nu) = {val:.6f}, expected 1", {"fit": name, "z": z, "integral": val})
+    nhyp = 0
+    try:
+        import scipy.special as sp_
+        J_, tup_ = load()
+        with warnings.catch_warnings():
+            warnings.simplefilter("ignore")
+            nhyp = check_hypotheses_nonvacuous(ff, md, sp_, J_, tup_, lambda what: out["broken"].append({"kind": "hypothesis", "what": what}) if not any(b.get("what") == what for b in out["broken"]) else None)
+    except Exception as e:
+        out["assumptions"].append(f"hypotheses of the sign theorems not re-checked on the defaults: {type(e).__name__}: {e}")
     out["coverage"] = {
+        "sign_theorem_hypotheses_checked_on_defaults": nhyp,
         "evaluations": n_eval, "distinct_nontrivial": n_eval,
         "rule": "per fit: random permutations/subsets of random inputs (exact comparison), and 1201-point sweeps over nu in [1e-3,1e3] at each z of the grid (sign, finiteness, decay, peak vs PS peak, number of monotonicity changes); unit-normalised fits integrated over ln nu",
         "fits": len(names), "redshifts": zs, "collapsed_fraction_integrals": nfrac, "samples": samples,
